@@ -442,10 +442,26 @@ MemOK ==
     /\ \A j1, j2 \in 1 .. Len(waitQ[t]) : j1 # j2 => waitQ[t][j1] # waitQ[t][j2]
     /\ \A c \in Conns : c[2] = t => (req[c] > 0 <=> InSeq(c, waitQ[t]))
 
-Quiescent ==
-  /\ \A c \in Conns : /\ queue[c] = <<>> /\ oP[c] = oN[c] /\ iP[c] = oN[c] /\ iN[c] = oN[c]
+\* everything submitted was delivered, every receiver has (and has acknowledged to its ack
+\* builder) every chunk, no incoming memory is held
+DeliveredQuiescent ==
+  /\ \A c \in Conns : /\ queue[c] = <<>> /\ iP[c] = oN[c] /\ iN[c] = oN[c]
                       /\ kP[c] = oN[c] /\ dlv[c] = LayIds(lay[c])
   /\ \A t \in Transports : mem[t] = 0 /\ waitQ[t] = <<>>
+
+Quiescent == DeliveredQuiescent /\ \A c \in Conns : oP[c] = oN[c]
+
+(* Named deviation of the code from this specification (not a violation of *)
+(* the property, which speaks about delivery and incoming memory): after   *)
+(* full delivery a sender may never learn it.  A selective ack makes       *)
+(* OutgoingConnection.updatedSeqNums move all resend pointers past an      *)
+(* older chunk that is still unacked; if the ack that covers that chunk is *)
+(* lost, the resend timer fires for ever without resending it and the      *)
+(* receiver has no reason to speak, so the outgoing window stays open      *)
+(* until later traffic carries a newer ack prefix.  The model itself is    *)
+(* live (TimerResend makes every unacked chunk eligible); trace validation *)
+(* accepts a settle loop that ends in this state and counts it.            *)
+SenderUnawareOfDelivery == DeliveredQuiescent /\ \E c \in Conns : oP[c] < oN[c]
 
 \* acknowledged prefixes never move backwards
 Monotone ==
